@@ -114,7 +114,7 @@ def main():
         if res.oracle_fail:
             res.oracle_fail[0]['case'] = shrink(bb, res.oracle_fail[0]['case'])
     if drv and bb:
-        rc, model = run_lines([drv, casefile])
+        rc, model = run_lines_sharded([drv], casefile)
         if rc != 0:
             res.add_broken('correspondence', 'model driver run', ' '.join(model[-3:]))
         selff = [l for l in model if l.startswith('MODEL-SELF-FAIL')]
